@@ -133,12 +133,12 @@ def make_pred(task):
                 want[rule] = 1 if inv else 0
         elif task == "melody":
             # a copy may also come with its confidences spelled out: the estimate's voicing equal to the reference's own binary voicing,
-            # the reference's reward all ones - each alone or both leave every optimum where it is
+            # the reference's reward 1 on its voiced frames - each alone or both leave every optimum where it is
             had_v, had_r = kw.pop("est_voicing", None) is not None, kw.pop("ref_reward", None) is not None
             if had_v:
                 kw["est_voicing"] = [1.0 if f > 0 else 0.0 for f in ref["freq"]]
             if had_r:
-                kw["ref_reward"] = [1.0] * len(ref["freq"])
+                kw["ref_reward"] = [1.0 if f > 0 else 0.0 for f in ref["freq"]]      # full reward exactly on the voiced frames
             if had_v != had_r:
                 ctx.event("one_confidence_keyword")
             from oracles import melody as omel
@@ -153,6 +153,11 @@ def make_pred(task):
                 return False
             size = len(ref["freq"])
             want = {"Voicing Recall": 1, "Voicing False Alarm": 0, "Raw Pitch Accuracy": 1, "Raw Chroma Accuracy": 1, "Overall Accuracy": 1}
+            if len(ref["freq"]) % 3 == 0 and any(f == 0 for f in ref["freq"]):
+                # un-voiced frames may carry a pitch guess, written as a negative frequency: voicing (and every optimum) is unchanged
+                ref["freq"] = [(-220.0 if (f == 0 and i % 2 == 0) else f) for i, f in enumerate(ref["freq"])]
+                c["est"]["freq"] = list(ref["freq"])
+                ctx.event("unvoiced_frames_with_a_pitch_guess")
         elif task == "multipitch":
             if not any(ref["freqs"]):
                 ctx.skip("no frequency")
